@@ -167,4 +167,20 @@ CHECKS['C19'] = {
             'must leave every registered worker dead and its child process gone.',
     'note': 'The per-shard server fixture is a registered ProcessWorker and is part of the model (autoclose blocks kill it; it is restarted on demand).',
 }
+CHECKS['C12'] = {
+    'engine': 'OS', 'level': 'exploration', 'design_ref': 'DESIGN.md 4 (C12)',
+    'technique': 'property-based testing over generated server populations (0-4 children in mixed states, contexts) x stop method x delay, with a process-census and parent-outcome oracle',
+    'text': 'A private real server per case gets a generated mix of cooperative / exception-swallowing / idle / busy / finished / in-context children and contexts, '
+            'is stopped by terminate() or SIGTERM after a generated delay, and within 10 s every process started for the case must be gone and every parent-side '
+            'worker must be dead with has_error True (finished ones unchanged) without any parent call blocking.',
+    'note': 'WorkerTerminatedError is demanded only in the all-cooperative, graceful, past-start-up configuration; stop during worker start-up is sampled by delay 0 only.',
+}
+CHECKS['C18'] = {
+    'engine': 'OS', 'level': 'exploration', 'design_ref': 'DESIGN.md 4 (C18)',
+    'technique': 'model-based property testing: generated operation lists over context ids against a dictionary model of the server context table, with server health probes and a process census',
+    'text': 'create / duplicate create / delete / delete-unknown / start worker / start worker in unknown context / enqueue / wait are generated over ids 1-3 on a real '
+            'server; ValueError on taken ids, first registration stays in force, results equal the context target with its defaults, delete ends workers and frees '
+            'the id, the server stays healthy and no process started during the case survives deleting everything.',
+    'note': 'Each case runs on the shard server (restarted when a case breaks it).',
+}
 NOT_APPLICABLE = {}
